@@ -111,6 +111,46 @@ Section LRSim.
       rewrite nth_error_map, Hn. reflexivity.
   Qed.
 
+  (* ---- stack-only variants (the trace plays no role in which moves exist) -------- *)
+
+  Definition sim_outcome_stack (c : config) (o : outcome) : Prop :=
+    match o with
+    | Continue s' => exists c', nstep g tb anylook c c' /\ c_stack c' = to_stack (l_stack s')
+    | Done (LROk t _ _ _) => naccepts tb anylook c t
+    | Done _ => True
+    end.
+
+  Lemma nstep_trace_irrel c1 c2 tr :
+    nstep g tb anylook c1 c2 ->
+    exists tr', nstep g tb anylook (mkCfg (c_stack c1) (c_pos c1) tr)
+                                   (mkCfg (c_stack c2) (c_pos c2) tr').
+  Proof.
+    intros H. destruct H as
+      [st pos tr0 y s e s' Hl Hin | st pos tr0 y s e p pr popped rest s' ns ne Hl Hin Hp E Hlen Hg];
+      cbn [c_stack c_pos].
+    - eexists. apply (ns_shift g tb anylook st pos tr y s e s' Hl Hin).
+    - eexists. apply (ns_reduce g tb anylook st pos tr y s e p pr popped rest s' ns ne Hl Hin Hp E Hlen Hg).
+  Qed.
+
+  Lemma do_action_sim_stack c tr stk lay1 scan fb acts y :
+    c_stack c = to_stack stk ->
+    (forall a, In a acts -> In a (cell tb (top_state (to_stack stk)) y)) ->
+    (fb = false -> match scan with TTok y' _ => y' = y | _ => True end) ->
+    sim_outcome_stack c (do_action g tb tr stk lay1 scan fb acts).
+  Proof.
+    intros Hc Hsub Hy.
+    pose (c2 := mkCfg (c_stack c) (c_pos c) (strip tr)).
+    assert (H2 : sim_outcome c2 (do_action g tb tr stk lay1 scan fb acts)).
+    { apply (do_action_sim c2 tr stk lay1 scan fb acts y); [exact Hc|reflexivity|exact Hsub|exact Hy]. }
+    destruct (do_action g tb tr stk lay1 scan fb acts) as [s'|r]; cbn [sim_outcome sim_outcome_stack] in *.
+    - destruct H2 as (c2' & Hstep & Hs' & _).
+      destruct (nstep_trace_irrel c2 c2' (c_trace c) Hstep) as (tr' & Hstep').
+      destruct c as [cst cpos ctr]. cbn [c_stack c_pos c_trace c2] in Hstep'.
+      eexists. split; [exact Hstep'|exact Hs'].
+    - destruct r; try exact I. destruct H2 as [Hacc _].
+      destruct c as [cst cpos ctr]. exact Hacc.
+  Qed.
+
   Lemma step_sim s c :
     sim s c -> sim_outcome c (step s).
   Proof.
